@@ -90,7 +90,9 @@ def write_evidence(pid, tier, verif_seed, camp, eng, extra, violations, wall):
                          "os.path/pathlib", "hashlib/filecmp"],
                 "interposed": ["os.scandir/os.listdir (order only)", "Platform.find_include_file wrapper (memo eviction only)",
                                "ParserState._get_realpath wrapper (cache eviction only)", "process boundary (fork-fresh children, hash-seeded zygotes)",
-                               "jsonschema.validate: schema-vs-metaschema check memoised by schema content (instance validation untouched)"],
+                               "jsonschema.validate: schema-vs-metaschema check memoised by schema content (instance validation untouched)",
+                               "concurrent.futures executors, as_completed, wait: simulated in-thread pool whose completion order "
+                               "comes from the schedule (inert on a tree that uses no pool: see probe worker_pool_tasks in C14)"],
             },
         },
         "assumptions": eng.ASSUMPTIONS,
